@@ -46,8 +46,11 @@ func FuzzDecode64(f *testing.F) {
 			if err != nil {
 				return
 			}
-			b.Validate()
-			if bks, used, derr := spec.Decode64(data); derr == nil && used == len(data) && b.GetCardinality() < 1<<22 {
+			verr := b.Validate()
+			// (C18 allows "an error or a bitmap" for arbitrary bytes; only a bitmap that the library itself validates is
+			// claimed to be the set the stream encodes - e.g. a bucket holding an empty 32-bit bitmap is syntactically
+			// fine for the independent decoder, is accepted by the library, and fails Validate with "empty container")
+			if bks, used, derr := spec.Decode64(data); verr == nil && derr == nil && used == len(data) && b.GetCardinality() < 1<<22 {
 				if d := check64(b, spec.Set64Of(bks)); d != "" {
 					t.Fatalf("%s read a valid 64-bit stream as another set: %s", e64[e], d)
 				}
